@@ -274,6 +274,7 @@ func foldFree(e namer, id int, evs []veriftrace.Event, subs []*freeSubmit, busAn
 	reset := blank("", 0)
 	reset.E = "reset"
 	reset.St = emptyState("run")
+	reset.Chain = "idle"
 	out := []*Rec{reset}
 
 	byTag := map[int]*freeSubmit{}
@@ -358,6 +359,7 @@ func foldFree(e namer, id int, evs []veriftrace.Event, subs []*freeSubmit, busAn
 		return st
 	}
 	emit := func(r *Rec) {
+		r.Chain = r.St.Fetch // (no gate in this direction: the hooks' word is all there is)
 		r.I = len(out)
 		r.Ann = r.AnnHook
 		out = append(out, r)
